@@ -288,6 +288,68 @@ theorem C02_flow_early_witness :
       (Spec.init clashGraph.toGraph Store.init (fun _ => []))).fired = [0, 2, 1, 3] ∧
     clashGraph.check = false := by decide +kernel
 
+/-! ## hand-wired macros (`Macro._configure_graph_execution`) -/
+
+/-- the pinned macro — disconnect every run signal, reconnect pair by pair — keeps every hand-made
+connection AS A SET, on both sides (mirror image kept), for every wiring among its children … -/
+theorem C02_macro_edges_kept (w : Wiring) (hm : w.Mir) (children : List Nat)
+    (hc : ∀ s r, r ∈ w.out s → r.node ∈ children) :
+    (w.reconfigure true children).Mir ∧
+      ∀ s r, r ∈ (w.reconfigure true children).out s ↔ r ∈ w.out s := by
+  obtain ⟨h1, h2⟩ := Wiring.connectAll_spec (w.runPairs children) Wiring.empty Wiring.empty_mir
+  refine ⟨by simpa [Wiring.reconfigure] using h1, ?_⟩
+  intro s r
+  simp only [Wiring.reconfigure, ↓reduceIte]
+  rw [h2, Wiring.mem_runPairs, ← hm s r]
+  simp only [Wiring.empty, List.not_mem_nil, false_or]
+  exact ⟨fun h => h.2, fun h => ⟨hc s r h, h⟩⟩
+
+/-- `a >> c` then `a >> b` among children created in the order a, b, c -/
+def abcWiring : Wiring :=
+  (Wiring.empty.connect (sigRan 0) { node := 2, acc := false }).connect (sigRan 0) { node := 1, acc := false }
+
+example : abcWiring.Mir := Wiring.connect_mir _ (Wiring.connect_mir _ Wiring.empty_mir _ _) _ _
+
+/-- … but NOT THEIR ORDER: as written `a.ran` reaches b before c (newest first) and the flow runs a, b, c
+(that is what the same wiring does in a `Workflow(automate_execution=False)`); after the pinned
+reconfiguration it reaches c first and the macro runs a, c, b -/
+theorem C02_macro_reorders_witness :
+    abcWiring.out (sigRan 0) = [{ node := 1, acc := false }, { node := 2, acc := false }] ∧
+    (abcWiring.reconfigure true [0, 1, 2]).out (sigRan 0) = [{ node := 2, acc := false }, { node := 1, acc := false }] ∧
+    (compositeRun (nodeSem termNodes) (abcWiring.toGraph id [0] (List.range 12)) 100
+      (S.init Store.init (fun _ => []))).fired = [0, 1, 2] ∧
+    (compositeRun (nodeSem termNodes) ((abcWiring.reconfigure true [0, 1, 2]).toGraph id [0] (List.range 12)) 100
+      (S.init Store.init (fun _ => []))).fired = [0, 2, 1] := by decide +kernel
+
+/-- the repaired macro (`fixes/C02-macro-keep-signal-order.patch`: look, do not disconnect) leaves every
+list as it was written -/
+theorem C02_macro_order_repaired (w : Wiring) (children : List Nat) : w.reconfigure false children = w := rfl
+
+/-- putting the UI nodes upstream only ever adds `ui.ran → starter.accumulate_and_run` connections: what a
+non-starting child listens to is untouched -/
+theorem C02_macro_ui_only_touches_starters (ui : List Nat) (starters : List Nat) (w : Wiring) (n : Nat)
+    (hn : n ∉ starters) : (w.putUiFirst ui starters).accIn n = w.accIn n ∧ (w.putUiFirst ui starters).runIn n = w.runIn n := by
+  induction starters generalizing w with
+  | nil => exact ⟨rfl, rfl⟩
+  | cons m rest ih =>
+    have hm : n ≠ m := fun e => hn (e ▸ List.mem_cons_self)
+    have hr : n ∉ rest := fun h => hn (List.mem_cons_of_mem _ h)
+    have key : ∀ (ui : List Nat) (w : Wiring), (w.waitFor m ui).accIn n = w.accIn n ∧ (w.waitFor m ui).runIn n = w.runIn n := by
+      intro ui
+      induction ui with
+      | nil => intro w; exact ⟨rfl, rfl⟩
+      | cons u us ih2 =>
+        intro w
+        obtain ⟨h1, h2⟩ := ih2 (w.connect (sigRan u) { node := m, acc := true })
+        simp only [Wiring.waitFor]
+        rw [h1, h2]
+        unfold Wiring.connect
+        split <;> simp [updF, hm]
+    obtain ⟨h1, h2⟩ := ih (w.waitFor m ui) hr
+    obtain ⟨k1, k2⟩ := key ui w
+    simp only [Wiring.putUiFirst]
+    exact ⟨h1.trans k1, h2.trans k2⟩
+
 end PwVerif.C02
 
 #print axioms PwVerif.C02.C02_any
@@ -304,3 +366,7 @@ end PwVerif.C02
 #print axioms PwVerif.C02.C02_refines_queue_values
 #print axioms PwVerif.C02.C02_value
 #print axioms PwVerif.C02.C02_flow_early_witness
+#print axioms PwVerif.C02.C02_macro_edges_kept
+#print axioms PwVerif.C02.C02_macro_reorders_witness
+#print axioms PwVerif.C02.C02_macro_order_repaired
+#print axioms PwVerif.C02.C02_macro_ui_only_touches_starters
